@@ -152,8 +152,8 @@ namespace Givaro {
         }
         else
         {
-            num = Integer(-n);
-            den = Integer(-d);
+            num = -Integer(n);
+            den = -Integer(d);
         }
         reduce();
     }
